@@ -51,20 +51,20 @@ func init() {
 			map[string]string{"MaxSteps": "2", "MaxNodes": "3"},
 			map[string]string{"MaxSteps": "3", "MaxNodes": "3"}, // (3, 4) is 12M cases: 50 minutes and 31 GB (measured)
 			"all accessor/filter chains up to MaxSteps over the 16-step alphabet x all JSON trees up to MaxNodes nodes (plus arrays with an ill-shaped element at each position) x {lax, strict}; distinct cases = distinct (path, document, mode) triples, all non-trivial except the bare $ path",
-			false, "C07", "C01")
+			false, "C07", "C01", "C06") // C06: what Exists / First / Match say about the same path is part of what the accessors select
 	}
 	checks["C14"] = func(rc *RunCtx) {
 		mcExecCheck(rc, "MC_C14",
 			map[string]string{"MaxLen": "3", "Wide": "FALSE"},
 			map[string]string{"MaxLen": "4", "Wide": "TRUE"},
 			"all arrays of length 0..MaxLen over {null, 1, \"x\", [2], {\"a\":1}} plus non-arrays x subscript lists from abstract bounds (integers and halves from -2..6, last, last-1, last+1, ranges of every pair, lists, non-numeric / multi-valued / out-of-int32 / missing bounds, nested subscripts) x {lax, strict} x {float64, json.Number} documents",
-			true, "C14", "C01")
+			true, "C14", "C01", "C06")
 	}
 	checks["C15"] = func(rc *RunCtx) {
 		mcExecCheck(rc, "MC_C15",
 			map[string]string{"MaxNodes": "4", "MaxLevel": "3"},
 			map[string]string{"MaxNodes": "5", "MaxLevel": "4"},
 			"all JSON trees up to MaxNodes nodes over {1, \"x\"} with keys {a, b} (empty arrays and objects at every position) x {.*, [*], .**, .**{k}, .**{a to b}, .**{last}, .**{a to last}} for levels 0..MaxLevel, alone and followed by .a / .* x {lax, strict}",
-			false, "C15", "C01")
+			false, "C15", "C01", "C06")
 	}
 }
